@@ -146,7 +146,8 @@ def digest_program():
             ev.add("dtstart", tzp.localize(datetime(2021, 3, 1 + n, 9), z))
             ev.add("categories", ["b", "a", "c"])
             cal.add_component(ev)
-        cal.add_missing_timezones(first_date=date(2020, 1, 1), last_date=date(2022, 1, 1))
+        # (a long window for the first set: every observance of the generated VTIMEZONEs then lists many onsets)
+        cal.add_missing_timezones(first_date=date(2012, 1, 1) if len(zones) == 3 else date(2020, 1, 1), last_date=date(2022, 1, 1))
         out.append(hashlib.sha256(cal.to_ical()).hexdigest()[:16])
         out.append(",".join(t.tz_name for t in cal.timezones))
     out += mixed_programs()
